@@ -129,22 +129,22 @@ Definition sw_m_extent (n1 n2 : sw_node) (w : nat) : nat :=
        | None => 0
        end.
 
-Variable E : nat.
+Variable E : nat -> nat.
 Definition sw_m_ok (n1 n2 : sw_node) : bool :=
-  sw_any_wf_b Nl nprocsT d' n1 n2 && forallb (fun w => sw_m_extent n1 n2 w <=? E) (seq 0 nr).
-Definition sw_Wm (m : mems V) : Prop := length m = nr /\ forall w, w < nr -> E <= length (nth w m []).
+  sw_any_wf_b Nl nprocsT d' n1 n2 && forallb (fun w => sw_m_extent n1 n2 w <=? E w) (seq 0 nr).
+Definition sw_Wm (m : mems V) : Prop := length m = nr /\ forall w, w < nr -> E w <= length (nth w m []).
 
 Lemma sw_Wm_len m1 m2 : same_len V m1 m2 -> sw_Wm m1 -> sw_Wm m2.
 Proof. intros [H1 H2] [H3 H4]. split; [congruence|intros w Hw; rewrite <- H2; apply H4, Hw]. Qed.
 
-Lemma sw_m_ok_extent n1 n2 w : sw_m_ok n1 n2 = true -> w < nr -> sw_m_extent n1 n2 w <= E.
+Lemma sw_m_ok_extent n1 n2 w : sw_m_ok n1 n2 = true -> w < nr -> sw_m_extent n1 n2 w <= E w.
 Proof.
   unfold sw_m_ok. intros H Hw. apply andb_prop in H. destruct H as [_ H].
   rewrite forallb_forall in H. specialize (H w ltac:(apply in_seq; lia)). apply Nat.leb_le in H. exact H.
 Qed.
 
 (** ** frames *)
-Lemma sw_mprefix_fr f D to : (forall w, w < nr -> sw_msize D w <= E) -> sw_Wm to ->
+Lemma sw_mprefix_fr f D to : (forall w, w < nr -> sw_msize D w <= E w) -> sw_Wm to ->
   fr V dflt E to (sw_mprefix f D to).
 Proof.
   intros HE [Hl _]. apply fr_sym. unfold sw_mprefix. apply mat_fr. intros w A Hw HA HEA.
@@ -176,7 +176,7 @@ Proof. intros Eax. unfold d, sw_msize, sw_shape, sw_shapef, TransposeStep.sh', s
 
 Lemma sw_mint_plain_fr (S D : sw_lay) a0 from to : NoDup (snd S) -> snd S = snd D ->
   (forall w, w < nr -> Nat.max (sw_msize D w)
-     (Pax (snd S) a0 * bsize d' Nf (Pax (snd S)) (sw_pif S) (sw_ipif S) (sw_pif D) a0 (sw_lco nprocsT (snd S) w)) <= E) ->
+     (Pax (snd S) a0 * bsize d' Nf (Pax (snd S)) (sw_pif S) (sw_ipif S) (sw_pif D) a0 (sw_lco nprocsT (snd S) w)) <= E w) ->
   sw_Wm from -> sw_Wm to ->
   fr V dflt E from (fst (sw_mint_plain S D a0 from to)) /\ fr V dflt E to (snd (sw_mint_plain S D a0 from to)).
 Proof.
@@ -191,7 +191,7 @@ Qed.
 
 Lemma sw_mint_intact_fr (S D : sw_lay) a0 from to scratch : NoDup (snd S) -> snd S = snd D ->
   (forall w, w < nr -> Nat.max (sw_msize D w)
-     (Pax (snd S) a0 * bsize d' Nf (Pax (snd S)) (sw_pif S) (sw_ipif S) (sw_pif D) a0 (sw_lco nprocsT (snd S) w)) <= E) ->
+     (Pax (snd S) a0 * bsize d' Nf (Pax (snd S)) (sw_pif S) (sw_ipif S) (sw_pif D) a0 (sw_lco nprocsT (snd S) w)) <= E w) ->
   sw_Wm to -> sw_Wm scratch ->
   fr V dflt E to (fst (sw_mint_intact S D a0 from to scratch)) /\
   fr V dflt E scratch (snd (sw_mint_intact S D a0 from to scratch)).
@@ -210,7 +210,7 @@ Lemma sw_gather_size (D : sw_lay) w (S : sw_lay) :
 Proof. reflexivity. Qed.
 
 Lemma sw_mgather_plain_fr (S D : sw_lay) is_ from to :
-  (forall w, w < nr -> Nat.max (sw_msize D w) (Pax (snd S) is_ * sw_gB S is_ w) <= E) -> sw_Wm from ->
+  (forall w, w < nr -> Nat.max (sw_msize D w) (Pax (snd S) is_ * sw_gB S is_ w) <= E w) -> sw_Wm from ->
   fr V dflt E from (fst (sw_mgather_plain S D is_ from to)) /\
   snd (sw_mgather_plain S D is_ from to) = fst (sw_mgather_plain S D is_ from to).
 Proof.
@@ -222,7 +222,7 @@ Proof.
 Qed.
 
 Lemma sw_mgather_intact_fr (S D : sw_lay) is_ from to scratch :
-  (forall w, w < nr -> Nat.max (sw_msize D w) (Pax (snd S) is_ * sw_gB S is_ w) <= E) -> sw_Wm to -> sw_Wm scratch ->
+  (forall w, w < nr -> Nat.max (sw_msize D w) (Pax (snd S) is_ * sw_gB S is_ w) <= E w) -> sw_Wm to -> sw_Wm scratch ->
   fr V dflt E to (fst (sw_mgather_intact S D is_ from to scratch)) /\
   fr V dflt E scratch (snd (sw_mgather_intact S D is_ from to scratch)).
 Proof.
@@ -248,7 +248,7 @@ Theorem sw_m_plain_frame n1 n2 from to : sw_m_ok n1 n2 = true -> sw_Wm from -> s
   (fr V dflt E to (snd (sw_m_plain n1 n2 from to)) \/ fr V dflt E from (snd (sw_m_plain n1 n2 from to))).
 Proof.
   intros Hok Wf Wt.
-  assert (HE : forall w, w < nr -> sw_m_extent n1 n2 w <= E) by (intros; apply sw_m_ok_extent; assumption).
+  assert (HE : forall w, w < nr -> sw_m_extent n1 n2 w <= E w) by (intros; apply sw_m_ok_extent; assumption).
   assert (Hnd : NoDup (snd (snd n1))).
   { unfold sw_m_ok in Hok. apply andb_prop in Hok. destruct Hok as [Hok' _]. apply (sw_any_wf_nodup _ _ Hok'). }
   pose proof (sw_m_ok_int_eax n1 n2 Hok) as Eax.
@@ -273,7 +273,7 @@ Theorem sw_m_intact_frame n1 n2 from to scratch : sw_m_ok n1 n2 = true -> sw_Wm 
   fr V dflt E to (fst (sw_m_intact n1 n2 from to scratch)) /\ fr V dflt E scratch (snd (sw_m_intact n1 n2 from to scratch)).
 Proof.
   intros Hok Wf Wt Ws.
-  assert (HE : forall w, w < nr -> sw_m_extent n1 n2 w <= E) by (intros; apply sw_m_ok_extent; assumption).
+  assert (HE : forall w, w < nr -> sw_m_extent n1 n2 w <= E w) by (intros; apply sw_m_ok_extent; assumption).
   assert (Hnd : NoDup (snd (snd n1))).
   { unfold sw_m_ok in Hok. apply andb_prop in Hok. destruct Hok as [Hok' _]. apply (sw_any_wf_nodup _ _ Hok'). }
   pose proof (sw_m_ok_int_eax n1 n2 Hok) as Eax.
@@ -294,14 +294,14 @@ Proof.
 Qed.
 
 (** ** the block prefix of dest is the output of the prefix-level model sw_run_any *)
-Lemma sw_mprefix_cell f (D : sw_lay) to w A : sw_Wm to -> w < nr -> A < sw_msize D w -> sw_msize D w <= E ->
+Lemma sw_mprefix_cell f (D : sw_lay) to w A : sw_Wm to -> w < nr -> A < sw_msize D w -> sw_msize D w <= E w ->
   cell V dflt (sw_mprefix f D to) w A = f w A.
 Proof.
   intros [Hl W] Hw HA HE. unfold sw_mprefix. rewrite mat_cell; [|rewrite Hl; exact Hw|specialize (W w Hw); lia].
   destruct (Nat.ltb_spec A (sw_msize D w)); [reflexivity|lia].
 Qed.
 
-Lemma sw_mat_cell f (m : mems V) w A : sw_Wm m -> w < nr -> A < E -> cell V dflt (mat V f m) w A = f w A.
+Lemma sw_mat_cell f (m : mems V) w A : sw_Wm m -> w < nr -> A < E w -> cell V dflt (mat V f m) w A = f w A.
 Proof. intros [Hl W] Hw HA. apply mat_cell; [rewrite Hl; exact Hw|specialize (W w Hw); lia]. Qed.
 
 Lemma sw_int_dist_hyps (S D : sw_lay) a0 : sw_cfg_wf_b Nl nprocsT d' S D = true -> sw_int_dist_wf_b nprocsT d' S D a0 = true ->
